@@ -6,7 +6,10 @@ import (
 	"errors"
 	"fmt"
 	"math/rand"
+	"os"
+	"path/filepath"
 	"runtime"
+	"runtime/pprof"
 	"strings"
 	"sync"
 	"sync/atomic"
@@ -252,21 +255,22 @@ func (o *c16Obs) didReach(node, svc string) bool {
 }
 
 type c16Trial struct {
-	run     *ev.Run
-	sp      *c16Spec
-	name    string
-	m       *mesh.Mesh
-	obs     *c16Obs
-	tabs    vTables
-	S       string
-	inst    *netceptor.Netceptor
-	snd     []*vSock // sending sockets on S (index 2 = the non-UTF-8 named one, if any)
-	idle    []*vSock // sockets that never send: unrelated ones on S, sockets on other nodes
-	victims map[int]*vSock
-	raw     map[string]*vRaw
-	sent    map[*vSock]map[string]bool // socket -> "node|service" it sent to
-	bucket  string
-	nonutf8 map[string]int
+	wedgeReported bool
+	run           *ev.Run
+	sp            *c16Spec
+	name          string
+	m             *mesh.Mesh
+	obs           *c16Obs
+	tabs          vTables
+	S             string
+	inst          *netceptor.Netceptor
+	snd           []*vSock // sending sockets on S (index 2 = the non-UTF-8 named one, if any)
+	idle          []*vSock // sockets that never send: unrelated ones on S, sockets on other nodes
+	victims       map[int]*vSock
+	raw           map[string]*vRaw
+	sent          map[*vSock]map[string]bool // socket -> "node|service" it sent to
+	bucket        string
+	nonutf8       map[string]int
 }
 
 func c16Bucket(k int) string {
@@ -294,7 +298,16 @@ func (t *c16Trial) distinct(c *c16Case, timing string) {
 	t.run.Count(fmt.Sprintf("judged_%s_%s", c.Kind, c.Class), 1)
 }
 
-func (t *c16Trial) fence(target string) bool { return fencePing(t.inst, target) }
+func (t *c16Trial) fence(target string) bool {
+	ok, hung := fencePingBounded(t.inst, target)
+	if hung && !t.wedgeReported {
+		t.wedgeReported = true
+		// opening a socket subscribes it to the node's notices: a call that never returns means no sender on this
+		// node can be told anything any more
+		t.run.Violation("notice:node-wedged:open-socket-never-returns", fmt.Sprintf("%s: a Ping from the sender node (which opens a socket and subscribes it to the node's unreachable notices) had not returned 90 s after it was called, 78 s after its context expired: the node's notice delivery is blocked, no socket can be opened and no sender can be notified", t.name), nil)
+	}
+	return ok
+}
 
 // matching returns the notices of sock (from index n0 on) that name (target, svc) as destination.
 func matching(s *vSock, n0 int, target, svc string) (match []vNotice, other []vNotice) {
@@ -961,13 +974,41 @@ func runC16(tier string, args []string) {
 		go func(sp *c16Spec) {
 			defer wg.Done()
 			defer func() { <-sem }()
-			runC16Trial(run, sp)
+			c16Bounded(run, fmt.Sprintf("trial %d", sp.Trial), func() { runC16Trial(run, sp) })
 		}(sp)
 	}
 	wg.Wait()
 	collectRaces(run, workDir())
 	if len(args) < 2 {
-		runC16Extra(run)
+		c16Bounded(run, "extras", func() { runC16Extra(run) })
 	}
 	run.Finish(run.Pick(15, 40))
+}
+
+// c16Bounded runs one trial with a bound on the trial as a whole. The trials call the socket API of real nodes
+// in-process (ListenPacket, WriteTo, Close, Ping, DialContext); a node whose notice delivery or listener registry is
+// deadlocked never returns from such a call, and no per-call context can end it. A trial that has not finished after
+// 5 minutes (ordinary trials take seconds) while this process was not starved is reported: a sender stuck in
+// WriteTo / ListenPacket can be told nothing. The stuck goroutines are left behind.
+func c16Bounded(run *ev.Run, what string, f func()) {
+	startLagProbe()
+	t0 := time.Now()
+	done := make(chan struct{})
+	go func() { defer close(done); f() }()
+	select {
+	case <-done:
+	case <-time.After(5 * time.Minute):
+		if st, mx, tot := starved(t0); st {
+			run.Inconclusive(fmt.Sprintf("C16 %s did not finish within 5 minutes, but this process was starved (largest scheduling delay %v, %v in total)", what, mx.Round(time.Millisecond), tot.Round(time.Millisecond)))
+			return
+		}
+		dir := filepath.Join(ev.Root(), ".work", "replay")
+		_ = os.MkdirAll(dir, 0o755)
+		path := filepath.Join(dir, fmt.Sprintf("C16-stuck-goroutines-seed%d.txt", run.Seed))
+		if fh, err := os.Create(path); err == nil {
+			_ = pprof.Lookup("goroutine").WriteTo(fh, 2)
+			fh.Close()
+		}
+		run.Violation("wedged:socket-call-never-returns", fmt.Sprintf("%s: calls of the node's socket API (ListenPacket / WriteTo / Close / Ping) made by this trial had not returned after 5 minutes (ordinary trials take seconds, this process was not starved): the node's notice delivery is blocked, a sender can neither be notified nor even open a socket; goroutines in %s", what, path), nil)
+	}
 }
